@@ -19,7 +19,7 @@ RULE = ('exhaustive: every labelled connected graph (degree <= 4) with <= 6 atom
 ASSUMPTIONS = ['CachedMethods compatibility shim',
                'gap predicates (theta with three bridges >= 3 bonds; dense cage) applied only after a mismatch']
 CONFIG = {
-    'quick': {'shards': 16, 'budget_s': 120, 'nmax': 6, 'n7_sample': 20000, 'n_assembly': 3000, 'n_corpus': 1000, 'n_dense': 24000,
+    'quick': {'shards': 16, 'budget_s': 300, 'nmax': 6, 'n7_sample': 20000, 'n_assembly': 3000, 'n_corpus': 1000, 'n_dense': 24000,
               'exhaustive_subspaces': ['labelled connected graphs with <= 6 atoms, degree <= 4, <= 5 rings'],
               'floors': {'evaluations': 20000, 'distinct_nontrivial': 5000, 'graphs.exhaustive': 15000,
                          'oracle.mcb-compared': 20000, 'marks.bonds-checked': 50000, 'renumbered': 3000, 'graphs.dense': 4000}},
